@@ -359,6 +359,45 @@ pub fn replay_last_caught(cfg: &Cfg, ops: &[Op]) -> Result<Out, usize> {
     r.map_err(|_| step)
 }
 
+/// How the instance is handled before the LAST operation of a replayed history.
+#[derive(Clone, Copy, PartialEq, Debug)]
+pub enum Via {
+    Plain,
+    /// serialized with bincode and replaced by the restored copy
+    Serde,
+    /// replaced by its clone (the original is dropped)
+    Clone,
+}
+
+/// As `replay_last_caught`, but the instance goes through an identity transformation (serde round
+/// trip / clone) right before the last operation.  Every prefix of a history is itself an enumerated
+/// history, so this places the transformation at every position of every history.
+pub fn replay_last_via(cfg: &Cfg, ops: &[Op], via: Via) -> Result<Out, usize> {
+    if via == Via::Plain || ops.is_empty() {
+        return replay_last_caught(cfg, ops);
+    }
+    let mut step = 0usize;
+    let r = std::panic::catch_unwind(std::panic::AssertUnwindSafe(|| {
+        let mut s = make(cfg);
+        let mut last = Out::NONE;
+        for (i, op) in ops.iter().enumerate() {
+            if i + 1 == ops.len() {
+                s = match via {
+                    Via::Serde => {
+                        let bytes = s.ser().expect("harness: serialize");
+                        s.de(&bytes).expect("harness: deserialize")
+                    }
+                    _ => s.dup(),
+                };
+            }
+            last = s.apply(op);
+            step += 1;
+        }
+        last
+    }));
+    r.map_err(|_| step)
+}
+
 pub fn replay_subject_caught(cfg: &Cfg, ops: &[Op]) -> Result<(Box<dyn Subject>, Out), usize> {
     let mut step = 0usize;
     let r = std::panic::catch_unwind(std::panic::AssertUnwindSafe(|| {
@@ -379,13 +418,19 @@ pub fn replay_subject_caught(cfg: &Cfg, ops: &[Op]) -> Result<(Box<dyn Subject>,
 /// whole history and the output of its last operation (prefixes are separate
 /// nodes, so every prefix is checked exactly once).  Stops at the first
 /// violation (which is the shortest of this slice).
-pub fn seq_job(
+pub fn seq_job(ctx: &Ctx, prop: &str, cfg: &Cfg, alphabet: &[Op], first: usize, depth: usize, out: &mut JobOut, check: impl FnMut(&[Op], &Out, &mut JobOut)) {
+    seq_job_via(ctx, prop, cfg, alphabet, first, depth, Via::Plain, out, check)
+}
+
+#[allow(clippy::too_many_arguments)]
+pub fn seq_job_via(
     ctx: &Ctx,
     prop: &str,
     cfg: &Cfg,
     alphabet: &[Op],
     first: usize,
     depth: usize,
+    via: Via,
     out: &mut JobOut,
     mut check: impl FnMut(&[Op], &Out, &mut JobOut),
 ) {
@@ -403,11 +448,19 @@ pub fn seq_job(
         out.stats.states += 1;
         out.stats.transitions += ops.len() as u64;
         out.stats.traces += 1;
-        match replay_last_caught(cfg, &ops) {
+        match replay_last_via(cfg, &ops, via) {
             Ok(last) => {
                 if !matches!(ops[ops.len() - 1], Op::Reset) {
                     out.stats.seen_output(&last);
+                    let before = out.violations.len();
                     check(&ops, &last, out);
+                    if via != Via::Plain && out.violations.len() > before {
+                        let what = if via == Via::Serde { "serialized with bincode and restored" } else { "replaced by its clone" };
+                        for v in out.violations[before..].iter_mut() {
+                            v.detail.push_str(&format!(" [the instance was {} right before the last operation; without that step the same history passes]", what));
+                            v.extra.insert("checkpoint".into(), format!("{}@{}", if via == Via::Serde { "serde" } else { "clone" }, ops.len() - 1));
+                        }
+                    }
                     if ops.len() >= depth.min(4) && out.stats.samples.len() < 3 {
                         out.stats.samples.push(format!("{} ops=[{}] -> {}", cfg.descr(), ops_text(&ops), out2s(&last)));
                     }
